@@ -11,7 +11,7 @@ for id in $ids; do
     echo "$id: patch does not apply ($p)"; continue
   fi
   git -C /repo apply $PWD/$p
-  out=$(timeout 1500 bin/check $id --tier quick 2>&1)
+  out=$(timeout 1500 bin/check ${id:0:3} --tier quick 2>&1)
   rc=$?
   git -C /repo checkout -- .
   nv=$(echo "$out" | grep -c '^VIOLATION')
